@@ -32,10 +32,21 @@ def main():
         if checks_only:
             raise StopIteration
         demo_cmd = meta["demo_cmd"]
-        # where do the demo files go? default: repository root; meta may name a package dir
-        dest = os.path.join(wt, meta.get("demo_dir", ""))
+        # some agents put a `cp <demo> <dir> &&` step in front: drop it, the files are placed below
+        import re
+        demo_cmd = re.sub(r"^(cp \S+ \S+ && )+", "", demo_cmd)
+        # where do the demo files go? by the package clause of the demo file
+        PKGDIR = {"klevdb": "", "klevdb_test": "", "message": "pkg/message", "message_test": "pkg/message", "segment": "pkg/segment", "segment_test": "pkg/segment",
+                  "index": "pkg/index", "index_test": "pkg/index", "notify": "pkg/notify", "notify_test": "pkg/notify"}
+        dests = {}
         for f in demo_files:
-            shutil.copy(os.path.join(src, f), dest)
+            pk = ""
+            if f.endswith(".go"):
+                mm = re.search(r"^package (\w+)", open(os.path.join(src, f)).read(), re.M)
+                pk = PKGDIR.get(mm.group(1), "") if mm else ""
+            dests[f] = os.path.join(wt, meta.get("demo_dir", pk))
+            shutil.copy(os.path.join(src, f), dests[f])
+        dest = None
         rc, out = sh(demo_cmd, wt)
         res["demo_passes_without_change"] = rc == 0
         res["demo_without_tail"] = out[-600:]
@@ -49,7 +60,7 @@ def main():
         res["demo_fails_with_change"] = rc != 0
         res["demo_with_tail"] = out[-1200:]
         for f in demo_files:
-            os.remove(os.path.join(dest, f))
+            os.remove(os.path.join(dests[f], f))
         if not nosuite:
             ok = True
             for i in range(2):
